@@ -218,6 +218,7 @@ static void reader_unregister(struct thr *t)
  * on a grace period in progress (the updater drops rcu_registry_lock while it waits): if it does, the
  * reader cannot leave its section, the grace period cannot end, nothing moves any more. */
 static int reg_handshake;
+static int churn_direct_pct;	/* qsbr: percentage of sections that end with a direct unregister / register */
 static uint64_t hs_req, hs_ack, hs_done;
 static int hs_stop;
 static void *regger_main(void *arg)
@@ -286,7 +287,9 @@ static void *reader_main(void *arg)
 		}
 		uint64_t e = ts_before();
 		VP_STORE(t->in_section, 0);
-		if (churn && x >= 990) {
+		if (churn && (x >= 990 || (churn_direct_pct && vp_rand_n(&t->rng, 100) < (uint32_t) churn_direct_pct))) {
+			/* unregister straight from the online state: the library must treat it as a quiescent state AND
+			 * wake a grace period that sleeps waiting for this thread */
 			reader_unregister(t);
 			if (x >= 997)
 				usleep(vp_rand_n(&t->rng, 2000));
@@ -607,6 +610,7 @@ int main(int argc, char **argv)
 	sig_reader = (int) vp_arg_long("sig-reader", 0);
 	tight = (int) vp_arg_long("tight", 0);
 	reg_handshake = (int) vp_arg_long("reg-handshake", 0);
+	churn_direct_pct = (int) vp_arg_long("churn-direct-pct", 0);
 	sb_lines = (int) vp_arg_long("sb-lines", 0);
 	n_slots = (uint32_t) vp_arg_long("slots", NSLOTS);
 	if (n_slots < 1 || n_slots > NSLOTS)
